@@ -2,6 +2,7 @@ package main
 
 import (
 	"fmt"
+	"math/big"
 	"strings"
 
 	"golang.org/x/tools/go/ssa"
@@ -34,6 +35,7 @@ func init() {
 	// bloom (de)serialisation: succeeds or fails arbitrarily; content is the library's business
 	models["(*github.com/bits-and-blooms/bloom/v3.BloomFilter).ReadFrom"] = func(e *Engine, st *State, x *ssa.Call, args []Value) bool {
 		ts := e.ts
+		st.abstract = "bloom ReadFrom is modelled as succeeding or failing arbitrarily"
 		okb := e.newNondet(st, "bool", BoolSort)
 		good := TupleV{ts.Var("n", BV(64)), nilErr()}
 		bad := TupleV{ts.BVInt(64, 0), newErr("bloom: decode")}
@@ -168,6 +170,7 @@ func init() {
 		return true
 	}
 	models["regexp.Compile"] = func(e *Engine, st *State, x *ssa.Call, args []Value) bool {
+		st.abstract = "regexp.Compile is modelled as succeeding or failing arbitrarily"
 		okb := e.newNondet(st, "bool", BoolSort)
 		e.nextObj++
 		o := e.newObj(st, nil, &RegexpV{Pat: args[0].(*StrV), ID: e.nextObj})
@@ -254,6 +257,33 @@ func init() {
 		nb.F[0] = e.mkSlice(st, append(append([]Value(nil), old...), args[1]))
 		e.store(st, p, nb)
 		setRes(st, x, nilErr())
+		return true
+	}
+}
+
+func init() {
+	// time: the clock is an arbitrary non-zero instant (wall word != 0: time.Now always sets the
+	// monotonic flag); IsZero is exact for the zero Time and for values returned by this model.
+	models["time.Now"] = func(e *Engine, st *State, x *ssa.Call, args []Value) bool {
+		ts := e.ts
+		// hasMonotonic (top bit) is always set by time.Now; no path-condition conjunct is needed
+		wall := ts.App(BV(64), "bvor", ts.Var("now_wall", BV(64)), ts.BVConst(64, new(big.Int).Lsh(big.NewInt(1), 63)))
+		z := e.zero(x.Type()).(*StructV)
+		t := &StructV{F: append([]Value(nil), z.F...)}
+		t.F[0], t.F[1] = wall, ts.Var("now_ext", BV(64))
+		setRes(st, x, t)
+		return true
+	}
+	models["time.Since"] = func(e *Engine, st *State, x *ssa.Call, args []Value) bool {
+		// an arbitrary non-negative duration (monotonic clock): top bit cleared
+		d := e.ts.App(BV(64), "bvlshr", e.ts.Var("since", BV(64)), e.ts.BVInt(64, 1))
+		setRes(st, x, d)
+		return true
+	}
+	models["(time.Time).IsZero"] = func(e *Engine, st *State, x *ssa.Call, args []Value) bool {
+		ts := e.ts
+		t := args[0].(*StructV)
+		setRes(st, x, ts.And(ts.Eq(t.F[0].(*Term), ts.BVInt(64, 0)), ts.Eq(t.F[1].(*Term), ts.BVInt(64, 0))))
 		return true
 	}
 }
